@@ -861,7 +861,8 @@ VF_PART(constraint_routes)
     if (dc == 1) elems.push_back({2, 0});
     if (dc == 3) for (int k = 0; k < 3; k++) elems.push_back({2, k});
     elems.push_back({4, 0});
-    for (auto& e : elems) for (int ty : {-1, 1, 2}) for (int st = 0; st < 2; st++) menu.push_back({dc, st, e.first, e.second, ty});
+    // (3-D, 9 directions, two structures: 3-17 s per case; thorough tier only)
+    for (auto& e : elems) for (int ty : {-1, 1, 2}) for (int st = 0; st < 2; st++) { if (dc == 3 && st == 1 && !C.thorough()) continue; menu.push_back({dc, st, e.first, e.second, ty}); }
     for (int ty : {-1, 1, 2}) menu.push_back({dc, 2, 3, 0, ty});
   }
   // dealt to the shards longest-estimated-first (3-D fits with 9 directions, two structures and an angle constraint take up to 17 s for the 4 fits of a case)
